@@ -267,6 +267,18 @@ def generate(rng: random.Random, tier: str):
         ops = roundtrip_ops(rng, rng.randint(1, 3), sep=False)
         c = mapping_case(ops, 0, 16, True, "mirror-roundtrip-adjacent")
         yield c
+    # 6. every slice of a mapping, explicit bounds included (slice(k, 0) is the empty composition; seeded change C08-7:
+    #    `to or len(maps)` turned an explicit upper bound 0 into "all maps")
+    for _ in range(25 if quick else 400):
+        k = rng.randint(1, 3)
+        base = []
+        for i in range(k):
+            tr = random_triples(rng, rng.randint(1, 3), 3, 3)
+            flat, _ = flat_from_triples(tr)
+            base.append(("map", flat, rng.random() < 0.3, rng.randrange(i) if i and rng.random() < 0.3 else None))
+        for f in range(k + 1):
+            for t in range(f, k + 1):
+                yield mapping_case(base + [("slice", f, t)], 0, 14, False, "slice-sweep")
 
 
 def rebuild(desc):
